@@ -204,7 +204,28 @@ JsonCtlCases ==
   {[kind |-> "rt", root |-> o.T, v |-> o.f] : o \in CtlObjs}
   \cup {[kind |-> "rt", root |-> "OSM", v |-> WholeOSM(Hdr({"Generator"}), <<o>>)] : o \in CtlObjs}
   \cup {JDoc(Vers[3], NoHdr, <<o>>) : o \in CtlObjs}
-JsonCases == RtCases \cup JsonDocCases \cup JsonCtlCases
+\* Element ids outside what the library's packed ids can hold (symbols i10..i14: -1, -5000000000, 2^40, 2^40+7, 2^62-3),
+\* for every element kind, as id and as way-node / member reference; standalone, inside an OSM, in independent documents.
+ExtIds == <<"i10", "i11", "i12", "i13", "i14">>
+IdObjs ==
+  UNION {{Obj(JsonKinds[t], [Full(JsonKinds[t], i + t).f EXCEPT !.ID = ExtIds[i]]) : t \in 1 .. 6} : i \in 1 .. 5}
+  \cup {Obj("Way", [ID |-> ExtIds[i], Nodes |-> <<[ID |-> ExtIds[1 + (i % 5)]], [ID |-> "i2"]>>]) : i \in 1 .. 5}
+  \cup {Obj("Relation", [ID |-> "i3", Members |-> <<[Type |-> "=way", Ref |-> ExtIds[i], Role |-> "s1"]>>]) : i \in 1 .. 5}
+JsonIdCases ==
+  {[kind |-> "rt", root |-> o.T, v |-> o.f] : o \in IdObjs}
+  \cup {[kind |-> "rt", root |-> "OSM", v |-> WholeOSM(NoHdr, <<o>>)] : o \in IdObjs}
+  \cup {JDoc(Vers[2], NoHdr, <<o>>) : o \in IdObjs}
+\* A changeset element that embeds a change (create / modify / delete are OSM documents again, so the OSM JSON decoder is
+\* re-entered while the outer document is being read): at index 0, 1, 2 of the outer elements, followed by further elements,
+\* inner documents of 2..5 elements whose ids differ from the outer ones.  Each is decoded `reps` times in a row.
+InnerItems(n) == [j \in 1 .. n |-> Mini(Elems[1 + (j % 3)], 4 + j)]
+CsChange(a, n) == Obj("Changeset", [ID |-> "i3", User |-> "s1", Change |-> << [g \in {a} |-> << WholeOSM(<< >>, InnerItems(n)) >>] >>])
+CsItems(i, a, n) == SubSeq(<<Mini("Node", 1), Mini("Way", 2)>>, 1, i) \o <<CsChange(a, n)>> \o <<Mini("User", 4), Mini("Note", 4), Mini("User", 1)>>
+WithReps(c) == [g \in DOMAIN c \cup {"reps"} |-> IF g = "reps" THEN 8 ELSE c[g]]
+JsonNestedCases ==
+  UNION {{WithReps([kind |-> "rt", root |-> "OSM", v |-> WholeOSM(Hdr({"Generator"}), CsItems(i, a, n))]),
+          WithReps(JDoc(Vers[3], NoHdr, CsItems(i, a, n)))} : i \in 0 .. 2, a \in Acts3, n \in {2, 3, 4, 5}}
+JsonCases == RtCases \cup JsonDocCases \cup JsonCtlCases \cup JsonIdCases \cup JsonNestedCases
 
 VARIABLE case
 DInit == case \in {DocCase(d) : d \in Docs}
